@@ -66,6 +66,9 @@ type scanSpec struct {
 	RefreshFails int      `json:"refresh_fails,omitempty"`
 	// RefreshSeq: explicit outcomes of the successive refresh / rebuild describes (overrides RefreshFails)
 	RefreshSeq []bool     `json:"refresh_seq,omitempty"`
+	// Forever: the scan is started through RunForever(true) (scan interval 40 ms) instead of RunOnce; only for worlds whose
+	// first RunOnce returns an error, so that the loop must end there (outcome 5: it went on)
+	Forever bool          `json:"forever,omitempty"`
 	Note      string      `json:"note,omitempty"`
 	Known     string      `json:"known_finding,omitempty"`
 }
@@ -405,7 +408,11 @@ func (w *world) build() error {
 	w.prov = prov
 	cs := fake.NewSimpleClientset()
 	cs.PrependReactor("*", "nodes", w.api.react)
-	copts := controller.Opts{K8SClient: cs, NodeGroups: opts, DryMode: s.GlobalDry, ScanInterval: time.Minute,
+	interval := time.Minute
+	if s.Forever {
+		interval = 40 * time.Millisecond
+	}
+	copts := controller.Opts{K8SClient: cs, NodeGroups: opts, DryMode: s.GlobalDry, ScanInterval: interval,
 		// like aws.Builder.Build: a new provider over the same services, registering the node groups (one describe)
 		CloudProviderBuilder: simBuilder{build: func() (cloudprovider.CloudProvider, error) {
 			np, err := awsprov.VerifNewCloudProvider(simAutoscaling{s: w.sim}, simEC2{s: w.sim}, configs...)
@@ -509,12 +516,54 @@ func (w *world) scanOnce(setState bool) scanObs {
 				}
 			}
 		}()
-		err := w.ctl.RunOnce()
-		if err != nil {
+		classify := func(err error) int {
+			if err == nil {
+				return 0
+			}
 			if _, ok := err.(*cloudprovider.NodeNotInNodeGroup); ok {
-				obs.Out = 2
-			} else {
-				obs.Out = 1
+				return 2
+			}
+			return 1
+		}
+		if !s.Forever {
+			obs.Out = classify(w.ctl.RunOnce())
+			return
+		}
+		// the main loop: it must return the first error a run returns
+		stop := make(chan struct{})
+		w.ctl.VerifSetStopChan(stop)
+		type ended struct {
+			out   int
+			panic string
+		}
+		done := make(chan ended, 1)
+		go func() {
+			defer func() {
+				if r := recover(); r != nil {
+					if _, ok := r.(exitSentinel); ok {
+						done <- ended{out: 3}
+					} else {
+						done <- ended{out: 4, panic: fmt.Sprint(r)}
+					}
+				}
+			}()
+			done <- ended{out: classify(w.ctl.RunForever(true))}
+		}()
+		limit := time.Duration(s.preludeSleeps())*5200*time.Millisecond + 1500*time.Millisecond
+		select {
+		case e := <-done:
+			obs.Out, obs.Panic = e.out, e.panic
+		case <-time.After(limit):
+			close(stop)
+			select {
+			case e := <-done:
+				if e.out == 4 || e.out == 3 {
+					obs.Out, obs.Panic = e.out, e.panic
+				} else {
+					obs.Out = 5
+				}
+			case <-time.After(15 * time.Second):
+				obs.Out = 5
 			}
 		}
 	}()
